@@ -504,6 +504,9 @@ def run_history(rname, hist):
     args = mkargs()
     comp = lib.construct(rname, lambda: mk(args))
     pristine = lib.construct(rname, lambda: mk(mkargs()))
+    # a sibling built from the very same caller arguments: each composite owns its data, so nothing done to one of them
+    # may show in the other (w6_C20_3: two Lines built on one Point shared its memoised position vector)
+    sib = lib.construct(rname, lambda: mk(args))
     problems = []
     t_o = [0.0, 0.0, 0.0]
     cp = None
@@ -512,6 +515,7 @@ def run_history(rname, hist):
     for ev in hist:
         before = observable(comp)
         before_cp = observable(cp) if cp is not None else None
+        before_sib = observable(sib)
         if ev[0] == 'A':
             muts = arg_mutations(args[ev[1]])
             muts[ev[2]][1](args[ev[1]])
@@ -553,6 +557,8 @@ def run_history(rname, hist):
             t_o = [t_o[i] + v[i] for i in range(3)]
             if cp is not None and observable(cp) != before_cp:
                 problems.append(('copy-changed-by-moving-the-original', ''))
+            if observable(sib) != before_sib:
+                problems.append(('sibling-built-from-the-same-arguments-changed-by-moving-the-composite', ''))
     # the caller's arguments are the caller's: unless the history mutated them (A letters) they must still
     # look and behave like freshly made ones, whatever was done to the composite or its copies
     touched = {ev[1] for ev in hist if ev[0] == 'A'}
